@@ -766,6 +766,44 @@ impl<const N: usize> IoEx<N> {
                 self.fail(own | cls::CONTENTS, format!("after {}: contents {:?} (len {}) != byte model {:?}", st.op.name(), got, self.buf.len(), want));
             }
         }
+        // ---- Eq / Ord / Hash / Debug depend only on the contents (C13, C04): compare with a
+        // freshly built buffer of the same capacity holding the same bytes (front at slot 0)
+        if self.fail.is_none() {
+            use std::hash::{Hash, Hasher};
+            let want = self.model_vec();
+            let canon: Box<CircularBuffer<N, u8>> = Box::new(want.iter().copied().collect());
+            let with_debug = i % 4 == 0;
+            let b: &CircularBuffer<N, u8> = &self.buf;
+            let c: &CircularBuffer<N, u8> = &canon;
+            let r = window(|| {
+                let mut h1 = crate::elem::RecHasher::new();
+                let mut h2 = crate::elem::RecHasher::new();
+                b.hash(&mut h1);
+                c.hash(&mut h2);
+                let dbg = if with_debug {
+                    let mut w1 = crate::deque_sess::HookWriter(String::new());
+                    let mut w2 = crate::deque_sess::HookWriter(String::new());
+                    let _ = write!(w1, "{:?}", b);
+                    let _ = write!(w2, "{:?}", &want[..]);
+                    w1.0 == w2.0
+                } else {
+                    true
+                };
+                (*b == *c, *c == *b, *b == want[..], b.cmp(c), h1.finish() == h2.finish(), dbg)
+            });
+            let _ = crate::alloc::take_op_allocs();
+            match r {
+                Ok((e1, e2, e3, ord, h, d)) => {
+                    if !(e1 && e2 && e3 && ord == std::cmp::Ordering::Equal && h && d) {
+                        self.fail(
+                            cls::CMP | cls::GARBAGE,
+                            format!("buffer {:?} vs a freshly built buffer with the same bytes: a==b {e1}, b==a {e2}, ==slice {e3}, cmp {ord:?}, same hash call sequence {h}, same Debug {d}", want),
+                        );
+                    }
+                }
+                Err(_) => self.fail(cls::CMP | cls::PANIC_SPEC, "comparison / hashing of the byte buffer panicked".into()),
+            }
+        }
         if self.fail.is_none() && !may_alloc && self.allocs > 0 && !self.panicked {
             self.fail(cls::ALLOC, format!("{} performed {} heap allocation(s) of its own", st.op.name(), self.allocs));
         }
